@@ -1807,7 +1807,7 @@ pub fn main(a: &crate::Args) -> i32 {
     let sweep_every = a.u64("sweep-every", 0);
     let per_victim = a.u64("runs-per-victim", if tier == "thorough" { 300 } else { 120 });
     // every n-th workload also gets a single-stepped profile and stops sampled from it
-    let profile_every = a.u64("profile-every", if tier == "thorough" { 3 } else { 8 });
+    let profile_every = a.u64("profile-every", if tier == "thorough" { 6 } else { 8 });
     let max_violations = a.u64("max-violations", 6) as usize;
     let started = Instant::now();
 
